@@ -6,6 +6,7 @@ package rt
 
 import (
 	"iter"
+	"math"
 	"runtime"
 )
 
@@ -74,11 +75,17 @@ func MK(k int) any {
 	if k == 0 {
 		return nil
 	}
+	if k == 4 {
+		return math.NaN() // a key that is not equal to itself
+	}
 	return k
 }
 func UK(k any) int {
 	if k == nil {
 		return 0
+	}
+	if f, ok := k.(float64); ok && f != f {
+		return 4
 	}
 	return k.(int)
 }
